@@ -601,3 +601,12 @@ def dist_ok(result, s, N, sites):
 
 
 SPEC.update(dict(phos_sub=phos_sub, dist_entry_ok=dist_entry_ok, dist_ok=dist_ok))
+
+
+# ----------------------------------------------------------------------------- C17: shuffles
+def nmov(frozen, j):
+    """number of non-frozen positions before j"""
+    return cnt(lambda i: Not(isin(i, frozen)), 0, j)
+
+
+SPEC.update(dict(nmov=nmov))
